@@ -100,6 +100,7 @@ struct Relay {
   bool p_threw = false, v_threw = false; std::string p_what, v_what;
   std::vector<std::string> p_lines, v_lines; // transcript as seen by the relay (before modification)
   std::atomic<size_t> v_count{0};             // number of complete lines the verifier side has written so far
+  std::mutex vmu; bool v_line(size_t i, std::string &out) { std::lock_guard<std::mutex> lk(vmu); if (i >= v_lines.size()) return false; out = v_lines[i]; return true; } // safe to call from a hook while the other direction is running
   static bool read_line(Pipe &p, std::string &line) { line.clear(); for (;;) { int c = p.get(); if (c < 0) return !line.empty(); if (c == '\n') return true; line.push_back((char)c); } }
   void run(uint64_t seedP, uint64_t seedV, std::function<void(std::iostream &)> fp, std::function<void(std::iostream &)> fv,
            std::function<int(size_t, std::string &)> hook) {
@@ -113,7 +114,7 @@ struct Relay {
     std::thread f1([&] { std::string l; size_t n = 0; while (read_line(p2r, l)) { p_lines.push_back(l); int a = hook ? hook(n, l) : 0; n++;
         if (a == 3) break; if (a == 1) continue; l.push_back('\n'); r2v.write(l.data(), l.size()); if (a == 2) r2v.write(l.data(), l.size()); }
       mon.alive--; r2v.close(); });
-    std::thread f2([&] { std::string l; while (read_line(v2r, l)) { v_lines.push_back(l); v_count++; l.push_back('\n'); r2p.write(l.data(), l.size()); } mon.alive--; r2p.close(); });
+    std::thread f2([&] { std::string l; while (read_line(v2r, l)) { { std::lock_guard<std::mutex> lk(vmu); v_lines.push_back(l); } v_count++; l.push_back('\n'); r2p.write(l.data(), l.size()); } mon.alive--; r2p.close(); });
     tp.join(); tv.join(); p2r.close(); v2r.close(); f1.join(); f2.join();
   }
   bool stalled() const { return p2r.stalled || r2v.stalled || v2r.stalled || r2p.stalled; }
